@@ -1029,3 +1029,14 @@ VARIANTS += [
     dict(prop="C07", name="aggregate-width-test-on-second-operand", expect="WIRE-aggregate|width-test-on-first-operand",
          edits=[dict(file="ipa-core/src/protocol/ipa_prf/aggregation/mod.rs", find="                                if a.len() < usize::try_from(OV::BITS).unwrap() {", replace="                                if b.len() < usize::try_from(OV::BITS).unwrap() {")]),
 ]
+
+VARIANTS += [
+    dict(prop="C07", name="reveal-sends-right-component-to-right-peer", expect="POLY-reveal|semi_honest_reveal:sends-the-missing-component",
+         edits=[dict(file=RVF, find="            .send(record_id, left)\n            .await?;", replace="            .send(record_id, right)\n            .await?;")]),
+    dict(prop="C07", name="malicious-reveal-sends-left-both-ways", expect="POLY-reveal|malicious_reveal:sends-the-missing-component",
+         edits=[dict(file=RVF, find="            left_sender.send(record_id, right)", replace="            left_sender.send(record_id, left)")]),
+    dict(prop="C07", name="reveal-opened-value-drops-right", expect="POLY-reveal|semi_honest_reveal:opened=received+left+right",
+         edits=[dict(file=RVF, find="        Ok(Some(share + left + right))", replace="        let _ = right;\n        Ok(Some(share + left))")]),
+    dict(prop="C07", name="reveal-sum-reordered", benign=True,
+         edits=[dict(file=RVF, find="        Ok(Some(share + left + right))", replace="        let opened = share + right;\n        Ok(Some(opened + left))")]),
+]
